@@ -423,6 +423,15 @@ def _as_function(case, ctx, g):
         og = grand(xs)
         ctx.close("fantasy_siblings", og.mean, rg.mean, (1e-7, 1e-7), cls="siblings:elder_fantasy:mean")
         ctx.close("fantasy_siblings", og.covariance_matrix, rg.covariance_matrix, ctol, cls="siblings:elder_fantasy:covar")
+        # the fantasy models are models of their own: moving THEIR parameters (what training them does) leaves the source alone
+        snap_src = _snapshot(model, xs)
+        for fm_ in (younger, grand):
+            for p_ in list(fm_.parameters()) + list(fm_.likelihood.parameters()):
+                p_.add_(0.07)
+        _ensure_unchanged(ctx, model, snap_src, xs, "parameters of the fantasy models moved")
+        for fm_ in (younger, grand):
+            for p_ in list({id(q): q for q in list(fm_.parameters()) + list(fm_.likelihood.parameters())}.values()):
+                pass
         # recomputed from the elder's own data and likelihood
         elder.train()
         elder.eval()
